@@ -1,7 +1,7 @@
 (* Corr/Wire.v — reading and printing records and messages in the textual form of
    harness/common/rrconv.go, and the case functions shared by the wire
    properties (C01, C02, C04, C08, C09, C16, C20). *)
-From Dns Require Import Model.Msg Gen.Structs.
+From Dns Require Import Model.Msg Model.Truncate Gen.Structs.
 Open Scope N_scope.
 
 Fixpoint split_go (c : ascii) (s : string) (cur : string) : list string :=
@@ -155,6 +155,11 @@ Definition c_unpack_msg (m : string) : string :=
 Definition c_len_msg (ms : string) : string := dec (msg_len (parse_msg ms)).
 Definition c_len_rr (rrs : string) : string := dec (rr_len (parse_rr rrs)).
 
+Definition c_truncate (ms size : string) : string := show_msg (truncate (parse_msg ms) (undecZ size)).
+(* PackBuffer(make([]byte, buflen)): octets and whether the caller's buffer was used *)
+Definition c_pack_buf (ms buflen : string) : string :=
+  show_r (fun p : bytes * bool => hex (fst p) +++ "," +++ showb (snd p))%string (pack_msg_buf (parse_msg ms) (undec buflen)).
+
 Definition run_wire (fn : string) (args : list string) : option string :=
   if String.eqb fn "pack_rr" then Some (c_pack_rr (arg args 0) (arg args 1))
   else if String.eqb fn "unpack_rr" then Some (c_unpack_rr (arg args 0) (arg args 1))
@@ -162,4 +167,6 @@ Definition run_wire (fn : string) (args : list string) : option string :=
   else if String.eqb fn "unpack_msg" then Some (c_unpack_msg (arg args 0))
   else if String.eqb fn "len_msg" then Some (c_len_msg (arg args 0))
   else if String.eqb fn "len_rr" then Some (c_len_rr (arg args 0))
+  else if String.eqb fn "truncate" then Some (c_truncate (arg args 0) (arg args 1))
+  else if String.eqb fn "pack_buf" then Some (c_pack_buf (arg args 0) (arg args 1))
   else None.
